@@ -1,4 +1,5 @@
 import Gv.Proofs.FastaRT
+import Gv.Model.Fmt.Nexus
 /-!
 C02 — every alignment format round-trips losslessly through writer and parser.
 
@@ -119,5 +120,13 @@ theorem roundtrip_fasta_go (rows : List XRow) (h : reprFasta rows = true) :
       .ok ⟨autoAlphabet (rows.map (·.2)), L, rows⟩ := by
   obtain ⟨L, _, _, h⟩ := roundtrip_fasta Gen.c_FASTA_LINE.toNat (by decide) false {} (by decide) rows h
   exact ⟨L, h⟩
+
+/-- **Nexus: the round trip is FALSE for the code as it is.**  The protein alignment `a = END`, `b = ENV`
+is representable (`reprNexus`), the writer emits it, and the parser rejects the writer's output because
+`scanIdent` turns the residue row `END` into the keyword token (finding `nexus-keyword-row`). -/
+theorem roundtrip_nexus_counterexample :
+    Spec.Fmt.reprNexus [([97], [69, 78, 68]), ([98], [69, 78, 86])] = true ∧
+    Nexus.parse ⟨false, false, false⟩ {} (Nexus.write 0 [([97], [69, 78, 68]), ([98], [69, 78, 86])]) = .error := by
+  decide
 
 end Gv.Props.C02
